@@ -16,8 +16,10 @@ namespace Axelar.Surface
 open Axelar Generated
 
 /-- what is compared: kind, exported name, `only_owner`, `payable`, number of arguments
-    (the name of the Rust function is free to change) -/
-def sig (e : Entry) : String × String × Bool × String × Nat := (e.kind, e.name, e.onlyOwner, e.payable, e.nargs)
+    (the name of the Rust function is free to change, and so is the closure a callback receives:
+    it is private to the contract, so the arity of callbacks is not compared) -/
+def sig (e : Entry) : String × String × Bool × String × Nat :=
+  (e.kind, e.name, e.onlyOwner, e.payable, if e.kind = "callback" then 0 else e.nargs)
 
 /-- no two mappers of one contract can produce the same storage key -/
 def noAlias (ms : List Mapper) : Bool :=
